@@ -240,17 +240,18 @@ bool StepScript(InterpreterEnv& env)
             // if (!scriptSig.IsPushOnly())
             //     return set_error(serror, SCRIPT_ERR_SIG_PUSHONLY);
 
+            // stack cannot be empty here, because if it was the
+            // P2SH  HASH <> EQUAL  scriptPubKey would be evaluated with
+            // an empty stack and the EvalScript above would return false.
+            // (in a debugging session `exec` can fill the stack after an empty start, so this is checked, not asserted -
+            // and checked before anything is changed: a refused step leaves the session as it was)
+            if (env.p2shstack.empty())
+                return set_error(serror, SCRIPT_ERR_INVALID_STACK_OPERATION);
+
             // Restore stack.
             is_p2sh = false;
             stack = env.p2shstack;
             // swap(stack, stackCopy);
-
-            // stack cannot be empty here, because if it was the
-            // P2SH  HASH <> EQUAL  scriptPubKey would be evaluated with
-            // an empty stack and the EvalScript above would return false.
-            // (in a debugging session `exec` can fill the stack after an empty start, so this is checked, not asserted)
-            if (stack.empty())
-                return set_error(serror, SCRIPT_ERR_INVALID_STACK_OPERATION);
 
             const valtype& pubKeySerialized = stack.back();
             CScript pubKey2(pubKeySerialized.begin(), pubKeySerialized.end());
